@@ -235,11 +235,14 @@ class Pipeline:
         if val is None and len(call.args) > 2:
             val = call.args[2]
         if isinstance(val, ast.Name):
-            for n in ast.walk(gp):
-                if isinstance(n, ast.FunctionDef) and n.name == val.id:
-                    info["validator"] = n
-                    rets = [r for r in ast.walk(n) if isinstance(r, ast.Return)]
-                    info["validator_ret"] = [unparse(r.value) for r in rets]
+            # a function nested in GetPass, or one at module level of the pass's file
+            cands = [n for n in ast.walk(gp) if isinstance(n, ast.FunctionDef) and n.name == val.id]
+            if not cands and val.id in self.model.file(rel).functions:
+                cands = [self.model.file(rel).functions[val.id]]
+            for n in cands:
+                info["validator"] = n
+                rets = [r for r in ast.walk(n) if isinstance(r, ast.Return)]
+                info["validator_ret"] = [unparse(r.value) for r in rets]
         elif isinstance(val, ast.Lambda):
             info["validator"] = val
             info["validator_ret"] = [unparse(val.body)]
